@@ -48,6 +48,21 @@ def gen_cases(tier, seed):
         cases.append({'seed': rng.randrange(1 << 30), 'config': cfg, 'transfers': ts, 'family': 'boundary-sizes',
                       'plan': {'gate': {'match': rng.choice(['/fs:write', ':write', '/s3:GetObject']), 'phase': rng.choice(['before', 'after']),
                                         'policy': rng.choice(['seeded', 'reverse'])}, 'delay_p': rng.choice([0.0, 0.2])}})
+    # a transfer that has already failed / been cancelled still has tasks to hand on (the last GetObject task of a ranged download
+    # queues the final IO task) while the receiving stage is full: they wait for room like any other
+    for i in range(60 if quick else 600):
+        C = 8
+        cfg = dict(multipart_threshold=C, multipart_chunksize=C, io_chunksize=rng.choice([2, 4]), max_io_queue_size=rng.choice([1, 1, 2]),
+                   max_request_concurrency=rng.choice([2, 3]), max_in_memory_download_chunks=rng.choice([2, 3]), num_download_attempts=1)
+        ts = [{'kind': 'download', 'dst': rng.choice(['path', 'seekable', 'nonseekable']), 'size': rng.choice([3 * C, 4 * C + 3])},
+              {'kind': 'download', 'dst': rng.choice(['path', 'seekable']), 'size': rng.choice([3 * C, 5 * C])}]
+        plan = {'gate': {'match': [':write'], 'phase': 'before', 'policy': 'seeded'}, 'delay_p': 0.0}
+        site = f't0/s3:GetObject:{C * rng.choice([0, 1])}#0'
+        if rng.random() < 0.5:
+            plan['faults'] = [{'at': site, 'phase': rng.choice(['before', 'body']), 'bytes': 2, 'kind': 'exc', 'tag': 'FAULT-c10'}]
+        else:
+            plan['cancel'] = {'at': site, 'phase': 'after', 'how': 'future.cancel', 'from': 'event', 'target': 0}
+        cases.append({'seed': rng.randrange(1 << 30), 'config': cfg, 'transfers': ts, 'family': 'failed-with-full-stage', 'plan': plan})
     # contention on the tag semaphores: several stream transfers, a thread preempted at each statement of the semaphores /
     # BoundedExecutor.submit until the others have run as far as they can
     from .. import windows
@@ -85,4 +100,15 @@ def evaluate(obs):
 
 
 def run_case(case):
-    return e2e.run_with(case, evaluate)
+    r = e2e.run_with(case, evaluate)
+    if r.get('verdict') == 'inconclusive' and (r.get('summary') or {}).get('hang') == 'deadlock':
+        # the run came to rest unfinished: if a task was refused a hand-over to a full stage (NoResourcesAvailable escaped it), that
+        # refusal - "fails rather than blocks" - is the violation; any other deadlock is not this property's business
+        esc = [e for e in ((r.get('summary') or {}).get('escaped') or []) if 'NoResourcesAvailable' in str(e.get('escaped'))]
+        if esc:
+            from ..oracles import V
+
+            r['verdict'] = 'violated'
+            r['violations'] = [V(f'a {esc[0].get("task")} of the {esc[0].get("stage_of")} stage was refused a hand-over to a full stage ({esc[0]["escaped"]}) '
+                                 f'instead of waiting for room; the transfer never finished', sym='submit-refused', stage=esc[0].get('stage_of'))]
+    return r
